@@ -22,8 +22,8 @@ ASSUMPTIONS = ["svmc/refuuid.py (hashlib.sha1)", "svmc/refhex.py, svmc/refcbor.p
 BOUNDS = {"quick": "90 name pairs x 3 derivation sites; 64 configurations x 4 probe envelopes; 6 malformed configurations",
           "thorough": "same (complete)"}
 
-VENDORS = ["nordicsemi.com", "", "a", "zażółć.example", "x" * 300, "Nordicsemi.com", "nordicsemi.com.", "acme.example", "nordicsemi.com "]
-CLASSES = ["nRF54H20_sample_root", "nRF9280_sample_app", "", "b", "klasa_ąę€", "y" * 300, "nrf54h20_sample_root", "nRF54H20_sample_root.", "cls ", " cls"]
+VENDORS = ["nordicsemi.com", "", "a", "zażółć.example", "xY" * 150, "Nordicsemi.com", "nordicsemi.com.", "acme.example", "nordicsemi.com "]
+CLASSES = ["nRF54H20_sample_root", "nRF9280_sample_app", "", "b", "klasa_ąę€", "yZ" * 150, "nrf54h20_sample_root", "nRF54H20_sample_root.", "cls ", " cls"]
 CONFIGURABLE = ["APP_LOCAL_2", "APP_LOCAL_3", "RAD_LOCAL_2"]
 POOL = [("acme.example", "cls_a"), ("acme.example", "cls_b"), ("nordicsemi.com", "nRF54H20_sample_app"), ("Acme.example", "cls_a")]
 
